@@ -56,4 +56,13 @@ for mod in sorted(mods):
     for m in bad.finditer(src):
         res['broken'].append('forbidden construct %r in %s' % (m.group(0), fpath))
 res['modules'] = sorted(mods)
+# thorough tier: the toolchain's independent re-checker replays the compiled declarations of the property module and of
+# every GLua module it imports (transitively) through a fresh kernel
+if os.environ.get('VERIF_LEANCHECKER') == '1' and res['build_ok']:
+    p = subprocess.run(['lake', 'env', 'leanchecker'] + sorted(mods), cwd=root, capture_output=True, text=True)
+    res['leanchecker'] = {'modules': len(mods), 'exit': p.returncode, 'output': (p.stdout + p.stderr)[-600:]}
+    if p.returncode != 0:
+        res['broken'].append('leanchecker rejected the compiled modules: ' + (p.stderr or p.stdout)[-300:])
+    else:
+        res['checker_cmd'] += ' && lake env leanchecker <%d modules: the property module and its transitive GLua imports>' % len(mods)
 json.dump(res, open(out, 'w'), indent=1)
